@@ -162,7 +162,13 @@ func runBoxes(c Case) (v vkit.Verdict) {
 }
 
 func runGeom(c Case) (v vkit.Verdict) {
-	g := c.G.Geom()
+	g, sameG := vkit.SharedGeom(*c.G)
+	defer func() {
+		if m := sameG(); m != "" && !v.Bad {
+			v = v.Fail("the call changed the geometry it was given (point lists are sub-slices of one array with spare capacity): %s", m)
+		}
+	}()
+
 	V := c.G.Flatten()
 	v.Class(c.G.T)
 	he := c.G.HasEmptyMember()
